@@ -91,7 +91,11 @@ def triangulate_dataset(
     .. _holoviews: https://holoviews.org/reference/elements/bokeh/TriMesh.html
     .. _trimesh: https://trimsh.org
     """
-    polygons = dataset.ems.polygons
+    # Cell polygons can contain the same vertex twice in a row,
+    # for example the generated bounds of a cell on the edge of a curvilinear grid
+    # with a missing neighbour. The repeated vertex adds nothing to the shape,
+    # but the ear clipping below can not find a diagonal through it.
+    polygons = shapely.remove_repeated_points(dataset.ems.polygons)
 
     # Find all the unique coordinates and assign them each a unique index
     all_coords = shapely.get_coordinates(polygons)
